@@ -925,6 +925,20 @@ static int recordpair(const json &plan) {
         emit(*x, *z, "copy after removeVertexFromEdgeList");
         z->assignFrom(*x);
         emit(*x, *z, "assigned back");
+        // the value handed on by move construction, move assignment, swap, self-assignment
+        {
+            std::unique_ptr<IObj> m = x->moveClone();
+            emit(*x, *m, "move-constructed (source restored)");
+            std::unique_ptr<IObj> m2 = y->clone();
+            m2->moveAssignFrom(*m);
+            emit(*x, *m2, "move-assigned over another graph");
+            std::unique_ptr<IObj> s1 = x->clone(), s2 = y->clone();
+            s1->swapWith(*s2);
+            emit(*x, *s2, "swapped (holds the first graph)");
+            emit(*y, *s1, "swapped (holds the second graph)");
+            s2->selfAssign();
+            emit(*x, *s2, "self-assigned");
+        }
         // two edges moved at one source: same degrees, different neighbours
         {
             std::unique_ptr<IObj> w = x->clone();
